@@ -572,7 +572,7 @@ class TermCanvas(Canvas):
         """
         if buf.startswith((b";", b"0;", b"2;")):
             # set window title
-            self.widget.set_title(buf.decode().partition(";")[2])
+            self.widget.set_title(buf.decode("utf-8", "replace").partition(";")[2])
 
     def parse_escape(self, char: bytes) -> None:
         if self.parsestate == 1:
